@@ -1,4 +1,5 @@
 import ZvbiModel.Ttx.Roundtrip9
+import ZvbiModel.Ttx.OwnAux1
 /-!
 # C02 round 4, part 10: one transmission with packets of other magazines interleaved
 
@@ -95,16 +96,20 @@ inductive Item
   | own (k : Nat) (p : Packet)
   /-- any packet (number `k`) of another magazine `m'` -/
   | foreign (m' k : Nat) (p : Packet)
+  /-- (round 6) a packet of P that is not a row: X/26, X/27, X/28 (not X/28/3), or M/29 of its magazine (`IsAux`) -/
+  | ownx (k : Nat) (p : Packet)
 
 def Item.pkt : Item → Packet
   | .own _ p => p
   | .foreign _ _ p => p
+  | .ownx _ p => p
 
 /-- the rows of P among the items, in the order sent -/
 def ownRows : List Item → List RowPkt
   | [] => []
   | .own k p :: xs => (k, p) :: ownRows xs
   | .foreign _ _ _ :: xs => ownRows xs
+  | .ownx _ _ :: xs => ownRows xs
 
 /-- along the run from `s`: own items are rows 1..25 of magazine `m`; foreign items belong to another
     magazine and are `Benign` in the state they arrive in -/
@@ -112,12 +117,14 @@ def ItemsOk (m : Nat) : St → List Item → Prop
   | _, [] => True
   | s, .own k p :: xs => (IsPacket p m k ∧ 1 ≤ k ∧ k ≤ 25) ∧ ItemsOk m (step s p).1 xs
   | s, .foreign m' k p :: xs => (m' ≠ m ∧ IsPacket p m' k ∧ Benign s p m' k) ∧ ItemsOk m (step s p).1 xs
+  | s, .ownx k p :: xs => (IsPacket p m k ∧ IsAux p k) ∧ ItemsOk m (step s p).1 xs
 
-/-- slot `m` while the items arrive: page record as the header left it, rows collected -/
+/-- slot `m` while the items arrive: page record as the header left it - apart from the enhancement / link / extension
+    data written by the page's own X/26, X/27, X/28 packets (`SameText`) -, rows collected -/
 structure Mid (s2 s' : St) (m : Nat) (rows : List (Nat × List Nat)) : Prop where
   inv : IInv s'
   cur : ∃ c, s'.current = some c
-  page : (s'.rp m).page = (s2.rp m).page
+  page : SameText (s2.rp m).page (s'.rp m).page
   lr : (s'.rp m).lopRaw = mergeRows (s2.rp m).lopRaw rows
   lp : (s'.rp m).lopPackets = rowBits (s2.rp m).lopPackets rows
 
@@ -139,7 +146,7 @@ theorem run_items (s2 : St) (m : Nat) (hm : m < 8) (hfn : (s2.rp m).page.functio
     cases it with
     | own k p =>
       obtain ⟨⟨hp, hk1, hk2⟩, hrest⟩ := hok
-      have hfn' : (s'.rp m).page.function = FN_LOP := by rw [h.page]; exact hfn
+      have hfn' : (s'.rp m).page.function = FN_LOP := by rw [h.page.fn]; exact hfn
       have hst := step_row s' p m k hp ⟨hk1, hk2⟩ h.inv.shape.cd h.inv.mask hfn'
       have hlen : m < (tick s').raw.length := by show m < s'.raw.length; rw [h.inv.shape.len]; exact hm
       have hq : ∀ x : RawPage, x.page = (s'.rp m).page → x.lopRaw.length = (s'.rp m).lopRaw.length →
@@ -148,7 +155,7 @@ theorem run_items (s2 : St) (m : Nat) (hm : m < 8) (hfn : (s2.rp m).page.functio
         rw [hst]
         refine ⟨h.inv.tick.quiet (hq _ rfl (by simp)), ?_, ?_, ?_, ?_⟩
         · obtain ⟨c, hc⟩ := h.cur; exact ⟨c, hc⟩
-        · show (((tick s').setRp m _).rp m).page = _
+        · show SameText _ (((tick s').setRp m _).rp m).page
           rw [rp_setRp_same _ m _ hlen]; exact h.page
         · show (((tick s').setRp m _).rp m).lopRaw = _
           rw [rp_setRp_same _ m _ hlen, mergeRows_append, ← h.lr]; rfl
@@ -180,6 +187,25 @@ theorem run_items (s2 : St) (m : Nat) (hm : m < 8) (hfn : (s2.rp m).page.functio
         rw [List.mem_append] at hx
         rcases hx with hx | hx
         · exact hb.nosw hx
+        · exact r3 hx
+    | ownx k p =>
+      obtain ⟨⟨hp, hk⟩, hrest⟩ := hok
+      have hfn' : (s'.rp m).page.function = FN_LOP := by rw [h.page.fn]; exact hfn
+      have hlen : m < s'.raw.length := by rw [h.inv.shape.len]; exact hm
+      obtain ⟨a1, _, a3, a4⟩ := own_aux_step s' p m k hp hk h.inv.shape.cd h.inv.mask hfn' hlen
+      have hmid : Mid s2 (step s' p).1 m rows :=
+        ⟨h.inv.tick.quiet a3, by obtain ⟨c, hc⟩ := h.cur; exact ⟨c, by rw [a3.cur]; exact hc⟩,
+          h.page.trans a1.text, by rw [a1.lr]; exact h.lr, by rw [a1.lp]; exact h.lp⟩
+      obtain ⟨r1, r2, r3⟩ := ih (step s' p).1 _ hmid hrest
+      simp only [List.map_cons, Item.pkt, run_cons]
+      refine ⟨r1, ?_, ?_⟩
+      · intro x hx
+        rw [ttxPages_append, a4.pages, List.nil_append] at hx
+        exact r2 x hx
+      · intro hx
+        rw [List.mem_append] at hx
+        rcases hx with hx | hx
+        · exact a4.nochsw hx
         · exact r3 hx
 
 /-! ## the terminating header (slot `m` ready, decoder in parallel mode) -/
